@@ -3,6 +3,9 @@ package server
 import (
 	"net/netip"
 
+	"github.com/osrg/gobgp/v4/internal/pkg/table"
+	"github.com/osrg/gobgp/v4/pkg/config/oc"
+
 	"github.com/osrg/gobgp/v4/pkg/packet/bgp"
 )
 
@@ -26,18 +29,42 @@ func c17rtm(origin uint32, rt bgp.ExtendedCommunityInterface, withdraw bool) *bg
 func VH_c17_server_rtc() {
 	fams := []bgp.Family{bgp.RF_IPv4_VPN, bgp.RF_RTC_UC}
 	s := vServer(65000, fams)
+	if vParam("import_policy") == 1 {
+		// an import policy with a modifying action: the Loc-RIB then holds a clone of the received path
+		rp := &oc.RoutingPolicy{}
+		st := oc.Statement{Name: "s1"}
+		st.Actions.RouteDisposition = oc.ROUTE_DISPOSITION_ACCEPT_ROUTE
+		st.Actions.BgpActions.SetLocalPref = 200
+		rp.PolicyDefinitions = []oc.PolicyDefinition{{Name: "p1", Statements: []oc.Statement{st}}}
+		ap := oc.ApplyPolicy{}
+		ap.Config.ImportPolicyList = []string{"p1"}
+		ap.Config.DefaultImportPolicy, ap.Config.DefaultExportPolicy = oc.DEFAULT_POLICY_TYPE_ACCEPT_ROUTE, oc.DEFAULT_POLICY_TYPE_ACCEPT_ROUTE
+		if err := s.policy.Reset(rp, map[string]oc.ApplyPolicy{table.GLOBAL_RIB_NAME: ap}); err != nil {
+			panic(err)
+		}
+	}
 	src := vEstablished(s, vNeighbor(2, 65000, 65000, []bgp.Family{bgp.RF_IPv4_VPN}), []bgp.Family{bgp.RF_IPv4_VPN})
 	rp := vEstablished(s, vNeighbor(3, 65003, 65000, fams), fams)
 	x := bgp.NewTwoOctetAsSpecificExtended(bgp.EC_SUBTYPE_ROUTE_TARGET, 65000, 100, true)
 	y := bgp.NewTwoOctetAsSpecificExtended(bgp.EC_SUBTYPE_ROUTE_TARGET, 65000, 200, true)
+	z := bgp.NewTwoOctetAsSpecificExtended(bgp.EC_SUBTYPE_ROUTE_TARGET, 65000, 300, true)
 
-	// the VPN route, learned before or after the memberships
+	// the VPN route, learned before or after the memberships; its target set is {}, {X} or {X,Y}
 	rd := bgp.NewRouteDistinguisherTwoOctetAS(65000, 1)
 	vpn, _ := bgp.NewLabeledVPNIPAddrPrefix(netip.MustParsePrefix("10.1.0.0/16"), *bgp.NewMPLSLabelStack(100), rd)
 	mp, _ := bgp.NewPathAttributeMpReachNLRI(bgp.RF_IPv4_VPN, []bgp.PathNLRI{{NLRI: vpn}}, vAddr4(10, 0, 0, 2))
-	route := bgp.NewBGPUpdateMessage(nil, []bgp.PathAttributeInterface{bgp.NewPathAttributeOrigin(0),
-		bgp.NewPathAttributeAsPath(nil), bgp.NewPathAttributeLocalPref(100),
-		bgp.NewPathAttributeExtendedCommunities([]bgp.ExtendedCommunityInterface{x}), mp}, nil)
+	attrs := []bgp.PathAttributeInterface{bgp.NewPathAttributeOrigin(0), bgp.NewPathAttributeAsPath(nil), bgp.NewPathAttributeLocalPref(100)}
+	nTargets := vChoice("route_targets", 3)
+	if vParam("targets") == 1 {
+		nTargets = 1 // quick tier: one target
+	}
+	switch nTargets {
+	case 1:
+		attrs = append(attrs, bgp.NewPathAttributeExtendedCommunities([]bgp.ExtendedCommunityInterface{x}))
+	case 2:
+		attrs = append(attrs, bgp.NewPathAttributeExtendedCommunities([]bgp.ExtendedCommunityInterface{x, y}))
+	}
+	route := bgp.NewBGPUpdateMessage(nil, append(attrs, mp), nil)
 
 	have := false
 	drain := func() {
@@ -58,30 +85,49 @@ func VH_c17_server_rtc() {
 	if routeFirst {
 		vRecv(s, src, route, 10)
 		drain()
+		if vParam("import_policy") == 1 && vBool("soft_reset_in") {
+			vAssert(s.softResetIn("", bgp.RF_IPv4_VPN) == nil, "soft reset failed")
+			drain()
+		}
 	}
-	// memberships the peer holds for X, by origin AS
-	var member [2]bool
+	// memberships the peer holds, by target (X, Y, unrelated Z, default) and origin AS
+	var member [4][2]bool
 	steps := vParam("steps")
+	kinds := 3
+	if vParam("targets") == 1 {
+		kinds = 2 // quick tier: the route's target or an unrelated one
+	}
 	for i := 0; i < steps; i++ {
 		k := vChoice("origin_as", 2)
 		withdraw := vBool("withdraw")
-		rt := bgp.ExtendedCommunityInterface(x)
-		other := vBool("unrelated_target")
-		if other {
+		which := vChoice("membership_target", kinds+1)
+		var rt bgp.ExtendedCommunityInterface
+		slot := which
+		switch {
+		case vParam("targets") == 1 && which == 1:
+			rt, slot = z, 2
+		case vParam("targets") == 1 && which == 2:
+			rt, slot = nil, 3
+		case which == 0:
+			rt = x
+		case which == 1:
 			rt = y
+		case which == 2:
+			rt = z
+		default:
+			rt, slot = nil, 3
 		}
 		vRecv(s, rp, c17rtm(uint32(65003+k), rt, withdraw), int64(20+i))
 		drain()
-		if !other {
-			member[k] = !withdraw
-		}
+		member[slot][k] = !withdraw
 	}
 	if !routeFirst {
 		vRecv(s, src, route, 50)
 		drain()
 	}
-	want := member[0] || member[1]
-	vAssert(have == want, "an RTC peer's view of a VPN route differs from 'it has an accepted membership for one of the route's targets'")
+	has := func(t int) bool { return member[t][0] || member[t][1] }
+	want := has(3) || nTargets >= 1 && has(0) || nTargets >= 2 && has(1)
+	vAssert(have == want, "an RTC peer's view of a VPN route differs from 'it has an accepted membership for one of the route's targets (or the default membership)'")
 	if want {
 		vReach("advertised")
 	} else {
